@@ -236,6 +236,9 @@ class Iface(Ty):
     def __init__(self, iface):
         self.iface = iface
 
+    def resolved(self):
+        return self.iface() if isinstance(self.iface, types.FunctionType) else self.iface
+
     def make(self, interp, name):
         iface = self.iface() if isinstance(self.iface, types.FunctionType) else self.iface
         return new_opaque(interp, iface, name)
@@ -277,7 +280,7 @@ class ListOf(Ty):
         def elem(interp2, idx_term, uid=uid):
             return make_indexed(interp2, elem_ty, uid, idx_term)
 
-        xs = SList(n, elem, uid)
+        xs = SList(n, elem, uid, ident=(uid, ()))
         xs.elem_ty = elem_ty
         return xs
 
@@ -287,6 +290,28 @@ class ListOf(Ty):
             n = self.min_len + abs(n) % 4
         n = max(self.min_len, min(int(n), 6))
         return [self.elem.concrete(cx, '%s[%d]' % (name, i)) for i in range(n)]
+
+
+class MapOf(Ty):
+    """dict with symbolic contents (unbounded): keys of shape ``key`` (Str / Int), values of shape ``val``
+    (Str / Int / Bool, or ``Iface`` of a by-id interface).  Supports in, [], []=, del, get, pop,
+    setdefault, update, copy, dict(d), copy.copy(d), ==, clear; not iteration / len."""
+
+    def __init__(self, key, val):
+        self.key = key
+        self.val = val
+
+    def make(self, interp, name):
+        from . import models
+        return models.new_smap(interp, name, self.key, self.val)
+
+
+class Derived:
+    """Interface attribute computed from the object by a sidecar function (interpreted on every read),
+    e.g. a property of the real class that only combines other attributes."""
+
+    def __init__(self, fn):
+        self.fn = fn
 
 
 class MListOf(Ty):
@@ -435,48 +460,36 @@ class Dependent(Ty):
         return self.fn(interp, name, env)
 
 
-class Dependent(Ty):
-    """Shape of a result (or of a raised exception) that is built from the arguments of the call:
-    ``fn(interp, name, env)`` with ``env`` = parameters and ghosts by name.  Only meaningful where a
-    contract is *used* (call sites); e.g. a result object that carries one of the arguments."""
-
-    def __init__(self, fn):
-        self.fn = fn
-
-    def make(self, interp, name):
-        raise Unsupported('Dependent shape outside a call site')
-
-    def make_for_call(self, interp, name, env):
-        return self.fn(interp, name, env)
-
-
-def make_indexed(interp, ty, uid, idx_term):
+def make_indexed(interp, ty, uid, idx_term, prefix=()):
     """Element of an SList at a symbolic index: scalar fields become applications of
-    uninterpreted functions to the index, so equal indices give equal elements."""
+    uninterpreted functions to the index, so equal indices give equal elements.
+    ``prefix``: index terms of the owner when the list is itself an attribute of an indexed object."""
     st = interp.st
+    idx = tuple(prefix) + (idx_term,)
+    sorts = [x.sort() if hasattr(x, "sort") else z3.IntSort() for x in idx]
     if isinstance(ty, _Int):
-        f = z3.Function(uid + '[]', z3.IntSort(), z3.IntSort())
-        t = f(idx_term)
+        f = z3.Function(uid + '[]', *(sorts + [z3.IntSort()]))
+        t = f(*idx)
         if ty.lo is not None:
             st.assume(t >= ty.lo)
         if ty.hi is not None:
             st.assume(t <= ty.hi)
         return SInt(t)
     if isinstance(ty, _Bool):
-        f = z3.Function(uid + '[]', z3.IntSort(), z3.BoolSort())
-        return SBool(f(idx_term))
+        f = z3.Function(uid + '[]', *(sorts + [z3.BoolSort()]))
+        return SBool(f(*idx))
     if isinstance(ty, _Str):
-        f = z3.Function(uid + '[]', z3.IntSort(), z3.StringSort())
-        return SStr(f(idx_term))
+        f = z3.Function(uid + '[]', *(sorts + [z3.StringSort()]))
+        return SStr(f(*idx))
     if isinstance(ty, Iface):
         iface = ty.iface() if isinstance(ty.iface, types.FunctionType) else ty.iface
-        return new_opaque(interp, iface, uid + '[]', index=(idx_term,))
+        return new_opaque(interp, iface, uid + '[]', index=idx)
     if isinstance(ty, Opaq):
-        return OpaqueVal('%s[%s]' % (uid, z3.simplify(idx_term)))
+        return OpaqueVal('%s[%s]' % (uid, ','.join(str(z3.simplify(t)) for t in idx)))
     if isinstance(ty, FixedList):
-        vals = [make_indexed(interp, t, '%s.%d' % (uid, i), idx_term) for i, t in enumerate(ty.elems)]
+        vals = [make_indexed(interp, t, '%s.%d' % (uid, i), idx_term, prefix) for i, t in enumerate(ty.elems)]
         return tuple(vals) if ty.as_tuple else vals
-    return indexed_value(interp, ty, uid + '[]', (idx_term,))
+    return indexed_value(interp, ty, uid + '[]', idx)
 
 
 def indexed_value(interp, ty, base, idx):
@@ -484,7 +497,7 @@ def indexed_value(interp, ty, base, idx):
     sequence, or a component of such an element): scalars are applications of uninterpreted functions
     named after ``base``, real instances (`Inst`) are built from indexed fields."""
     st = interp.st
-    sorts = [z3.IntSort()] * len(idx)
+    sorts = [x.sort() for x in idx]
     if isinstance(ty, _Int):
         t = z3.Function(base, *(sorts + [z3.IntSort()]))(*idx)
         if ty.lo is not None:
@@ -573,8 +586,38 @@ class Interface:
     truthy = True
 
 
-def new_opaque(interp, iface, name, index=(), preset=None):
+def universe_of(iface):
+    """Name of the id space of a by-id interface: shared by all its sub-interfaces."""
+    root = iface
+    for k in iface.__mro__:
+        if k.__dict__.get('by_id'):
+            root = k
+    return 'U.' + root.__name__
+
+
+def opaque_of_id(interp, iface, id_term):
+    """The object of by-id interface ``iface`` with the given id: all its attributes are functions of the id."""
+    return new_opaque(interp, iface, universe_of(iface), index=(id_term,), _is_id=True)
+
+
+def same_object(a, b):
+    """Identity of two opaque objects where the engine can tell: by-id objects of one universe."""
+    ia, ib = a._pv_iface, b._pv_iface
+    if getattr(ia, 'by_id', False) and getattr(ib, 'by_id', False) and isinstance(ia, type) and isinstance(ib, type):
+        if universe_of(ia) == universe_of(ib) and len(a._pv_index) == 1 and len(b._pv_index) == 1:
+            return wrap(a._pv_index[0] == b._pv_index[0])
+    return None
+
+
+def new_opaque(interp, iface, name, index=(), preset=None, _is_id=False):
     st = interp.st
+    if getattr(iface, 'by_id', False) and not _is_id:
+        # objects identified by an integer id (ghost address): a fresh id, or a function of the owner's index
+        if index:
+            idt = z3.Function(name + ".id", *([x.sort() for x in index] + [z3.IntSort()]))(*index)
+        else:
+            idt = st.fresh_int(name + '.id')
+        name, index = universe_of(iface), (idt,)
     uid = st.fresh_name(name) if not index else name
     o = Opaque(iface, uid)
     o.__dict__['_pv_index'] = tuple(index)
@@ -643,6 +686,16 @@ def _indexed_scalar(interp, o, name, ty):
         return SChoice(t, ty.values) if len(ty.values) > 1 else ty.values[0]
     if isinstance(ty, Const):
         return ty.value
+    if isinstance(ty, ListOf):
+        n = z3.Function(base + '.len', *(sorts + [z3.IntSort()]))(*idx)
+        st.assume(n >= ty.min_len)
+        elem_ty = ty.elem
+
+        def elem(interp2, j, base=base, idx=idx):
+            return make_indexed(interp2, elem_ty, base, j, prefix=idx)
+
+        return SList(n, elem, '%s<%s>' % (base, ','.join(z3.simplify(t).sexpr() for t in idx)),
+                     ident=(base, tuple(idx)))
     return indexed_value(interp, ty, base, idx)
 
 
@@ -747,9 +800,15 @@ class Registry:
 
     def model_for(self, f):
         try:
-            # Module.model(...) registrations apply to the functions of the same sidecar module and of the
-            # modules that import it (C03 builds on C01's models, C17 on C04's); the ghost file system of C04
-            # and the path model of C12 do not see each other
+            # a callable modelled by several sidecar modules: the module whose function is being verified sees
+            # its own model; then the models of the modules it builds on (python imports between sidecar
+            # modules: C03 builds on C01's models, C17 on C04's); the ghost file system of C04 and the path
+            # model of C12 do not see each other
+            cur = getattr(self, 'current_module', None)
+            own = getattr(self, 'module_models', {}).get(cur)
+            m = own.get(f) if own else None
+            if m is not None:
+                return m
             for p in getattr(self, 'current_scope', None) or getattr(self, 'current_props', ()):
                 m = self.scoped_models.get(p, {}).get(f)
                 if m is not None:
@@ -776,6 +835,8 @@ class Registry:
         if name in o._pv_attrs:
             return o._pv_attrs[name]
         ty = _iface_lookup(iface, 'attrs', name)
+        if isinstance(ty, Derived):
+            return interp.call(ty.fn, [o], {})
         if ty is not None:
             if o._pv_index:
                 v = _indexed_scalar(interp, o, name, ty)
@@ -975,23 +1036,33 @@ def call_opaque_method(interp, o, name, m, args, kwargs):
                 o._pv_attrs[('__raised__', key)] = exc
             raise PyRaise(exc)
     if m.pure:
-        if all(isinstance(a, (SInt, SBool, SStr, int, str, bool)) for a in args) and \
-                isinstance(m.returns, (_Int, _Bool, _Str)):
-            sorts = [x.sort() for x in o._pv_index] + [to_z3(a).sort() for a in args]
+        terms = _pure_arg_terms(interp, args)
+        scalar_args = all(isinstance(a, (SInt, SBool, SStr, int, str, bool)) for a in args)
+        if terms is not None and isinstance(m.returns, (_Int, _Bool, _Str)):
+            # a ghost function of (object, arguments): scalars, by-id objects (their id), symbolic maps (their arrays)
+            sorts = [x.sort() for x in o._pv_index] + [t.sort() for t in terms]
             rs = {_Int: z3.IntSort(), _Bool: z3.BoolSort(), _Str: z3.StringSort()}[type(m.returns)]
             f = z3.Function('%s.%s()' % (o._pv_uid, name), *(sorts + [rs]))
-            r = wrap(f(*(list(o._pv_index) + [to_z3(a) for a in args])))
+            r = wrap(f(*(list(o._pv_index) + terms)))
             if isinstance(r, SInt) and m.returns.lo is not None:
                 st.assume(r.t >= m.returns.lo)
-        elif all(isinstance(a, (SInt, SBool, SStr, int, str, bool)) for a in args) and isinstance(m.returns, Iface):
-            # structured result of a pure method: an opaque object indexed by (object index, arguments),
-            # i.e. its attributes are functions of the arguments
-            iface = m.returns.iface() if isinstance(m.returns.iface, types.FunctionType) else m.returns.iface
-            r = new_opaque(interp, iface, '%s.%s()' % (o._pv_uid, name),
-                           index=tuple(o._pv_index) + tuple(to_z3(a) for a in args))
         else:
-            r = m.returns.make(interp, '%s.%s()' % (o._pv_uid, name)) if m.returns is not None else None
-        o._pv_attrs[key] = r
+            key = ('__call__', name, tuple(z3.simplify(to_z3(a)).sexpr() if isinstance(a, (Sym, int, str, bool))
+                                            and not isinstance(a, (SOpt, SChoice, SList)) else id(a) for a in args))
+            if key in o._pv_attrs:
+                return o._pv_attrs[key]
+            if o._pv_index and not args and m.returns is not None and not isinstance(m.returns, Iface):
+                # result of a pure zero-argument method of an indexed object: a function of the index
+                r = _indexed_scalar(interp, o, name + '()', m.returns)
+            elif scalar_args and isinstance(m.returns, Iface) and (args or o._pv_index):
+                # structured result of a pure method: an opaque object indexed by (object index, arguments),
+                # i.e. its attributes are functions of the arguments
+                iface = m.returns.iface() if isinstance(m.returns.iface, types.FunctionType) else m.returns.iface
+                r = new_opaque(interp, iface, '%s.%s()' % (o._pv_uid, name),
+                               index=tuple(o._pv_index) + tuple(to_z3(a) for a in args))
+            else:
+                r = m.returns.make(interp, '%s.%s()' % (o._pv_uid, name)) if m.returns is not None else None
+            o._pv_attrs[key] = r
     else:
         r = m.returns.make(interp, '%s.%s()' % (o._pv_uid, name)) if m.returns is not None else None
     if m.ensures is not None:
@@ -999,6 +1070,22 @@ def call_opaque_method(interp, o, name, m, args, kwargs):
     if m.event is not None:
         st.emit(m.event + ':returned', o, r)
     return r
+
+
+def _pure_arg_terms(interp, args):
+    from . import models
+    out = []
+    for a in args:
+        if isinstance(a, (SOpt, SChoice)):
+            return None
+        if isinstance(a, models.SMap):
+            out.extend(a.terms())
+            continue
+        t = models.term_of_value(a)
+        if t is None:
+            return None
+        out.append(t)
+    return out
 
 
 # ============================================================================ contracts
